@@ -38,26 +38,3 @@ func VerifBytealgIndexNonASCII(s string) int             { return bytealg.IndexN
 func VerifBytealgIndexByteNonASCII(b []byte) int         { return bytealg.IndexByteNonASCII(b) }
 func VerifBytealgCutover(n int) int                      { return bytealg.Cutover(n) }
 func VerifBytealgIndexString(s, substr string) int       { return bytealg.IndexString(s, substr) }
-func VerifBruteForceIndexUnicode(s, substr string) int   { return bruteForceIndexUnicode(s, substr) }
-func VerifIndexRabinKarpUnicode(s, substr string) int    { return indexRabinKarpUnicode(s, substr) }
-func VerifIndexRabinKarpRevUnicode(s, substr string) int { return indexRabinKarpRevUnicode(s, substr) }
-func VerifHasPrefixUnicode(s, prefix string) (bool, bool) {
-	return hasPrefixUnicode(s, prefix)
-}
-func VerifHasSuffixUnicode(s, suffix string) (bool, int) { return hasSuffixUnicode(s, suffix) }
-func VerifIndexRuneCase(s string, r rune) int            { return indexRuneCase(s, r) }
-func VerifIndexRune(s string, r rune) (int, int)         { return indexRune(s, r) }
-func VerifIndexRune2(s string, lower, upper rune) (int, int) {
-	return indexRune2(s, lower, upper)
-}
-func VerifLastIndexRune(s string, r rune) int    { return lastIndexRune(s, r) }
-func VerifIndexByte(s string, c byte) (int, int) { return indexByte(s, c) }
-func VerifNonLetterASCII(s string) bool          { return nonLetterASCII(s) }
-func VerifContainsKelvin(s string) bool          { return containsKelvin(s) }
-func VerifCountRune(s string, r rune) int        { return countRune(s, r) }
-func VerifMakeASCIISet(s, chars string) ([8]uint32, bool) {
-	as, ok := makeASCIISet(s, chars)
-	return as, ok
-}
-func VerifHashStrUnicode(sep string) (uint32, uint32, int)    { return hashStrUnicode(sep) }
-func VerifHashStrRevUnicode(sep string) (uint32, uint32, int) { return hashStrRevUnicode(sep) }
